@@ -6,7 +6,7 @@ import "github.com/akrylysov/pogreb/fs"
 // hashes (uninterpreted), symbolic key/value contents; map semantics after
 // every step, full Items scan at the end.
 // case = code of the first symbolic step; VERIF bounds: n keys, prefix puts, L steps.
-func hC01seq(n, prefix, L, vlen int) {
+func hC01seq(n, prefix, L, vlen int, itemsEachStep bool) {
 	opts := smallOpts(fs.Mem, 2, 10+8+vlen)
 	db, err := Open("c01", opts)
 	vAssert(err == nil, "C01.open")
@@ -28,7 +28,12 @@ func hC01seq(n, prefix, L, vlen int) {
 		}
 		op, k := decodeOp(code, n)
 		applyOp(db, r, op, k, vlen, "C01.step")
-		checkReads(db, r, "C01.step")
+		if itemsEachStep {
+			checkItems(db, r, "C11.step")
+			vAssert(db.Count() == r.count(), "C11.step.count")
+		} else {
+			checkReads(db, r, "C01.step")
+		}
 	}
 	checkGetAppend(db, r, "C01.final")
 	checkItems(db, r, "C01.final")
@@ -41,5 +46,9 @@ func hC01seq(n, prefix, L, vlen int) {
 	vCover("C01.seq.done")
 }
 
-func H_C01_seq_q() { hC01seq(3, 3, 2, 2) }
-func H_C01_seq_t() { hC01seq(3, 3, 4, 2) }
+func H_C01_seq_q() { hC01seq(3, 3, 2, 2, false) }
+func H_C01_seq_t() { hC01seq(3, 3, 4, 2, false) }
+
+// C11 (quiescent part): a full Items scan after every step.
+func H_C11_seq_q() { hC01seq(3, 3, 2, 2, true) }
+func H_C11_seq_t() { hC01seq(3, 4, 3, 2, true) }
